@@ -1550,3 +1550,24 @@ B('loop-thread-worker-does-not-run-the-loop', ['C17'], ['C17-R5'],
   (A, "            aio.set_event_loop(loop)\n            loop.run_forever()\n", "            aio.set_event_loop(loop)\n            pass\n"))
 B('buf-runner-handler-only-reraises', ['C03'], ['C03-S3'],
   (A, "        except BaseException as e:  # noqa\n            logging.exception(\"Failed to run %s, retrying\", self.func)\n", "        except BaseException as e:  # noqa\n            raise\n"))
+
+# --- markers as records in the in-flight table (benign R56-4) and two breaks through the record's methods -----------------
+def _marker_record_edits(live_expr: str, ours_expr: str):
+    rec = ("class _Marker(NamedTuple):\n    loop: Any\n    event: Any\n\n    @classmethod\n    def claim(cls) -> '_Marker':\n        return cls(aio.get_running_loop(), aio.Event())\n\n"
+           f"    def is_live(self) -> bool:\n        return {live_expr}\n\n    def is_ours(self, event: Any) -> bool:\n        return {ours_expr}\n\n\n")
+    return [
+        (A, "    Set, Tuple, Type, TypeVar, Union,\n", "    NamedTuple, Set, Tuple, Type, TypeVar, Union,\n"),
+        (A, "@overload\ndef threadsafe_async_cache(\n    func: None = None,\n", rec + "@overload\ndef threadsafe_async_cache(\n    func: None = None,\n"),
+        (A, "                    caching_loop, event = events[key]\n                    if (caching_loop.is_closed()\n                            or not caching_loop.is_running()):\n                        raise KeyError  # Invalidate loop\n",
+            "                    marker = events[key]\n                    if not marker.is_live():\n                        raise KeyError  # Invalidate loop\n"),
+        (A, "                    caching_loop = aio.get_running_loop()\n                    event = aio.Event()\n                    events[key] = caching_loop, event\n",
+            "                    marker = _Marker.claim()\n                    events[key] = marker\n"),
+        (A, "                        event.set()\n", "                        marker.event.set()\n"),
+        (A, "                        if events.get(key, (None, None))[1] is event:\n                            del events[key]\n",
+            "                        holder = events.get(key)\n                        if holder is not None and holder.is_ours(marker.event):\n                            del events[key]\n"),
+        (A, "            wait_event: Awaitable[bool] = event.wait()\n            if running_loop is not caching_loop:\n                try:\n                    wait_fut = run_coro_ts(wait_event, caching_loop)\n",
+            "            wait_event: Awaitable[bool] = marker.event.wait()\n            if running_loop is not marker.loop:\n                try:\n                    wait_fut = run_coro_ts(wait_event, marker.loop)\n"),
+    ]
+T('cache-markers-are-records-with-methods', ['C01', 'C05', 'C06', 'C14'], *_marker_record_edits('not self.loop.is_closed() and self.loop.is_running()', 'self.event is event'))
+B('cache-marker-record-forgets-stopped-loops', ['C05'], ['C05-R7'], *_marker_record_edits('not self.loop.is_closed()', 'self.event is event'))
+B('cache-marker-record-compares-the-loop', ['C01', 'C06'], ['C01-R7', 'C06-R3'], *_marker_record_edits('not self.loop.is_closed() and self.loop.is_running()', 'self.loop is event'))
